@@ -428,6 +428,21 @@ def check(ctx: Ctx):
     ctx.check(okr, "R-QUEUE.roles", "receive_msg -> messaging.post_msg(src, dest, msg, type)", rcv, pm[0] if pm else rcv.node,
               "the received payload must be re-posted with all 4 slots (including its priority) in order")
 
+    # late registration: the agent must know the computation before discovery announces it (the registration callback re-posts the
+    # messages kept for it, and the agent thread may dequeue one at once)
+    ctx.rule("R-RETRY.order", "Agent.add_computation stores the computation before registering it with discovery")
+    addc = repo.func("pydcop.infrastructure.agents", "Agent.add_computation")
+    ctx.touch(addc)
+    top = list(addc.node.body)
+    i_store = [i for i, st in enumerate(top) if isinstance(st, ast.Assign) and isinstance(st.targets[0], ast.Subscript) and norm(st.targets[0].value) == "self._computations"]
+    i_reg = [i for i, st in enumerate(top) if any(isinstance(c, ast.Call) and norm(c.func) == "self.discovery.register_computation" for c in ast.walk(st))]
+    i_send = [i for i, st in enumerate(top) if isinstance(st, ast.Assign) and norm(st.targets[0]).endswith(".message_sender")]
+    ctx.check(len(i_store) == 1 and len(i_reg) == 1 and i_store[0] < i_reg[0], "R-RETRY.order", "the computation is in the agent's table before discovery learns of it", addc,
+              top[i_reg[0]] if i_reg else addc.node,
+              "registration fires Messaging._on_computation_registration, which re-posts the messages kept for this computation; if the agent thread dequeues one "
+              "before the computation is in self._computations, _handle_message raises UnknownComputation and the agent loop dies")
+    ctx.check(len(i_send) == 1 and i_reg and i_send[0] < i_reg[0], "R-RETRY.order", "the computation can send before it can receive", addc, top[i_send[0]] if i_send else addc.node,
+              "a handler run right after registration may post messages: message_sender must already be wired")
     ctx.floor("R-QUEUE.key", 2)
     ctx.floor("R-RETRY.drain", 6)
     ctx.floor("R-SHUTDOWN", 6)
@@ -450,6 +465,8 @@ def _block_of(func_node, stmt):
 _F = "pydcop/infrastructure/communication.py"
 _A = "pydcop/infrastructure/agents.py"
 VARIANTS = [
+    ("register_before_store", "pydcop/infrastructure/agents.py", "        self._computations[comp_name] = computation\n        self.discovery.register_computation(comp_name, self.name,self.address,\n                                            publish=publish)\n",
+     "        self.discovery.register_computation(comp_name, self.name,self.address,\n                                            publish=publish)\n        self._computations[comp_name] = computation\n", "break", "R-RETRY.order"),
     ("lifo_queue", _F, "        self._queue = PriorityQueue()", "        self._queue = LifoQueue()", "break", "R-QUEUE.kind"),
     ("key_time_first", _F, "self._queue.put((msg_type, self.msg_queue_count, now, full_msg))", "self._queue.put((msg_type, now, self.msg_queue_count, full_msg))", "break", "R-QUEUE.key"),
     ("key_no_type", _F, "self._queue.put((msg_type, self.msg_queue_count, now, full_msg))", "self._queue.put((self.msg_queue_count, msg_type, now, full_msg))", "break", "R-QUEUE.key"),
